@@ -469,7 +469,127 @@ Definition sr_dedup (l : list srec) : list srec :=
   match l with [] => [] | x :: r => x :: sr_dedup_from x r end.
 Definition strip (l : list srec) : list rec := map fst l.
 
+(* ------------------------------------------ TTL, class and Rrset::new *)
+(* The same generators over records that also carry class, TTL and (for a
+   SOA) the MINIMUM field.  Rrset::new panics (`expect("TTLs should be the
+   same")`, site 7) when the records of a non-RRSIG RRset differ in TTL; the
+   NSEC TTL/class are taken at every SOA RRset seen: min(MINIMUM, TTL) and
+   rrset.class(); NSEC3 and NSEC3PARAM records are always of class IN. *)
+Record trec := mk_trec { t_name : name; t_type : N; t_class : N; t_ttl : N; t_min : N }.
+Definition trec_strip (r : trec) : rec := (t_name r, t_type r).
+Definition tgroup := (name * list trec)%type.
+Definition tgroup_strip (g : tgroup) : group := (fst g, map t_type (snd g)).
+
+Fixpoint tskip_before (apex : name) (l : list trec) : list trec :=
+  match l with
+  | [] => []
+  | r :: l' => if name_eqb apex (t_name r) || ends_with (t_name r) apex then l else tskip_before apex l'
+  end.
+
+Fixpoint tgroups_from (first : name) (l : list trec) : list trec * list tgroup :=
+  match l with
+  | [] => ([], [])
+  | r :: l' =>
+      if name_eqb (t_name r) first then
+        let '(ts, gs) := tgroups_from first l' in (r :: ts, gs)
+      else
+        let '(ts, gs) := tgroups_from (t_name r) l' in ([], (t_name r, r :: ts) :: gs)
+  end.
+Definition tgroups (l : list trec) : list tgroup :=
+  match l with
+  | [] => []
+  | r :: l' => let '(ts, gs) := tgroups_from (t_name r) l' in (t_name r, r :: ts) :: gs
+  end.
+
+(* OwnerRrsIter: runs of equal rtype *)
+Fixpoint truns (l : list trec) : list (list trec) :=
+  match l with
+  | [] => []
+  | r :: l' =>
+      match truns l' with
+      | (r' :: run) :: rest => if t_type r' =? t_type r then (r :: r' :: run) :: rest
+                               else [r] :: (r' :: run) :: rest
+      | [] :: rest => [r] :: rest
+      | [] => [[r]]
+      end
+  end.
+
+(* Rrset::check_ttls *)
+Definition ttls_ok (first : trec) (run : list trec) : bool :=
+  (t_type first =? rrsig_ttl_exempt) || forallb (fun r => t_ttl r =? t_ttl first) run.
+
+Definition is_some {A} (o : option A) : bool := match o with Some _ => true | None => false end.
+
+(* state: Some (upd soa_record) once a SOA RRset was seen *)
+Fixpoint trrset_loop {S : Type} (upd : trec -> S) (at_cut : bool) (cut_types : list N)
+  (runs : list (list trec)) (bm : list block) (st : option S) : outcome (list block * option S) :=
+  match runs with
+  | [] => Ok (bm, st)
+  | run :: runs' =>
+      match run with
+      | [] => trrset_loop upd at_cut cut_types runs' bm st
+      | f :: _ =>
+          if negb (ttls_ok f run) then Panic 7
+          else
+            let t := t_type f in
+            let bm' := if negb at_cut || memN t cut_types then bm_add bm t else bm in
+            if t =? rt_SOA then
+              if (soa_max_len <? length run)%nat then Err 1
+              else trrset_loop upd at_cut cut_types runs' bm' (Some (upd f))
+            else trrset_loop upd at_cut cut_types runs' bm' st
+      end
+  end.
+
+Definition soa_ttl (f : trec) : N := if ttl_is_min then N.min (t_min f) (t_ttl f) else t_ttl f.
+(* generate_nsecs: nsec_ttl and zone_class *)
+Definition nsec_upd (f : trec) : N * N := (soa_ttl f, t_class f).
+
+Record tnsec := mk_tnsec { tn_rec : nsec; tn_ttl : N; tn_class : N }.
+
+Definition tnsec_visit (apex : name) (dnskey : bool) (at_cut : bool) (g : tgroup) (st : option (N * N))
+  : outcome (bytes * option (N * N)) :=
+  let bm := bm_add [] nsec_fixed_a in
+  let bm := if dnskey && name_eqb (fst g) apex then bm_add bm nsec_apex_cfg else bm in
+  let bm := bm_add bm nsec_fixed_b in
+  do r <- trrset_loop nsec_upd at_cut nsec_cut_types (truns (snd g)) bm st;
+  let '(bm, st') := r in
+  if is_some st' then Ok (bm_finalize bm, st') else Err 1.
+
+Definition tnsec_push (site : N) (prev : option (name * bytes)) (next : name) (st : option (N * N))
+  (acc : list tnsec) : outcome (list tnsec) :=
+  match prev with
+  | Some (pn, bm) =>
+      match st with
+      | Some (ttl, cls) => Ok (mk_tnsec (mk_nsec pn next bm) ttl cls :: acc)
+      | None => Panic site
+      end
+  | None => Ok acc
+  end.
+
+Fixpoint tnsec_loop (apex : name) (dnskey : bool) (gs : list tgroup)
+  (cut : option name) (prev : option (name * bytes)) (st : option (N * N)) (acc : list tnsec)
+  : outcome (list tnsec) :=
+  match gs with
+  | [] => do acc' <- tnsec_push 2 prev apex st acc; Ok (rev acc')
+  | g :: gs' =>
+      if negb (is_in_zone apex (tgroup_strip g)) then do acc' <- tnsec_push 2 prev apex st acc; Ok (rev acc')
+      else if below_cut cut (fst g) then tnsec_loop apex dnskey gs' cut prev st acc
+      else
+        let nm := fst g in
+        let at_cut := is_zone_cut apex (tgroup_strip g) in
+        let cut' := if at_cut then Some nm else None in
+        do acc' <- tnsec_push 1 prev nm st acc;
+        do v <- tnsec_visit apex dnskey at_cut g st;
+        let '(bm, st') := v in
+        tnsec_loop apex dnskey gs' cut' (Some (nm, bm)) st' acc'
+  end.
+
+Definition generate_nsecs_t (apex : name) (dnskey : bool) (z : list trec) : outcome (list tnsec) :=
+  tnsec_loop apex dnskey (tgroups (tskip_before apex z)) None None None [].
+
 (* ------------------------------------------------ executable entry points *)
+Definition c13_nsec_t (apex : name) (dnskey : bool) (z : list trec) : outcome (list tnsec) :=
+  generate_nsecs_t apex dnskey z.
 Definition c13_dedup (l : list srec) : list rec := strip (sr_dedup l).
 Definition c13_bitmap (ts probes : list N) : bytes * list (outcome bool) :=
   let w := bm_finalize (bm_adds [] ts) in (w, map (bm_contains w) probes).
